@@ -211,7 +211,9 @@ def updateReqs (ver : Bytes) (t : Target) (loc : Bytes) (ids : List Bytes)
           let oldId := cpKv.runId
           -- repaired (D13): SelectDB(dbid) before SetCheckpoint; "no position" → DB 0
           let db : Nat := if dbid < 0 then 0 else dbid.toNat
-          [Req.hsetCp db loc (cpEntries { cpKv with runId := id1 } now), Req.hsetHash id1 loc]
+          -- repaired (D27): an offset seen without a run id ("?", dbid −1) is not carried over
+          let off : Int := if dbid < 0 then -1 else cpKv.offset
+          [Req.hsetCp db loc (cpEntries { cpKv with runId := id1, offset := off } now), Req.hsetHash id1 loc]
           ++ (if oldId ≠ [] ∧ oldId ≠ qmark then
                 o2.map (fun d => Req.hdelCp d cpName (fourKeys oldId))
                 ++ (if oldId ≠ id1 then [Req.hdelHash oldId] else [])
